@@ -1363,6 +1363,13 @@ theorem gen_recursion_bodies_eq_ref :
     Gen.inlineTableSetBody = Ref.inlineTableSetBody ∧ Gen.selectQueryScope = Ref.selectQueryScope ∧
     Gen.recursionRootWrites = Ref.recursionRootWrites := ⟨rfl, rfl, rfl, rfl, rfl⟩
 
+/-- LIKE: the functions Model/Like.lean mirrors (`Like`, `matchText`, `matchTextTail`, `matchTextTailOnce`,
+    `matchCondition`, `evalLike`) are the reviewed ones -/
+theorem gen_like_bodies_eq_ref :
+    Gen.likeBody = Ref.likeBody ∧ Gen.matchTextBody = Ref.matchTextBody ∧ Gen.matchTextTailBody = Ref.matchTextTailBody ∧
+    Gen.matchTextTailOnceBody = Ref.matchTextTailOnceBody ∧ Gen.matchConditionBody = Ref.matchConditionBody ∧
+    Gen.evalLikeBody = Ref.evalLikeBody := ⟨rfl, rfl, rfl, rfl, rfl, rfl⟩
+
 /-- `View.filter`, `InnerJoin`, `OuterJoin` keep a record exactly when the model's `holds` says so -/
 theorem gen_keep_tests_eq_model (c : Cond) (r : Row) :
     Gen.filterKeeps (c r) = holds c r ∧ Gen.innerKeeps (c r) = holds c r ∧ Gen.outerKeeps (c r) = holds c r := by
